@@ -19,7 +19,7 @@ use std::cell::RefCell;
 
 struct C14;
 
-fn check(est: &str, x: &Mat, k: usize, family: &str) {
+fn check(est: &str, x: &Mat, k: usize, family: &str) -> bool {
     match est {
         "cov" => check_pca(x, false, k, family),
         "corr" => check_pca(x, true, k, family),
@@ -38,6 +38,10 @@ struct LatJob {
     alpha: Vec<f64>,
     fixed: Vec<usize>,
     est: String,
+    /// power-of-two rescaling of the whole data matrix (0 for the plain lattices); `alpha` is already scaled
+    exp: i64,
+    /// enumerate one representative per row-permutation class (rows in non-decreasing code order)
+    sorted: bool,
 }
 
 thread_local! {
@@ -64,12 +68,39 @@ fn alphabet(name: &str, seed: u64) -> Vec<f64> {
 }
 
 fn lat_jobs(jobs: &mut Vec<(usize, Job)>, n: usize, p: usize, aname: &str, ests: &[&str], seed: u64, cap: u64) {
-    let alpha = alphabet(aname, seed);
+    lat_jobs_scaled(jobs, n, p, aname, ests, seed, cap, 0, false)
+}
+
+/// 2^e as an exact f64 (|e| <= 1000).
+fn pow2(e: i64) -> f64 {
+    2f64.powi(e as i32)
+}
+
+/// Number of non-decreasing sequences of n row codes out of r = |alphabet|^p: C(r+n-1, n).
+fn sorted_count(r: u64, n: usize) -> u64 {
+    let mut c: u128 = 1;
+    for i in 0..n as u128 {
+        c = c * (r as u128 + i) / (i + 1);
+    }
+    c as u64
+}
+
+/// Lattice jobs over the alphabet multiplied by 2^exp (exp = 0: the plain lattice, same jobs as ever).
+/// `sorted`: only the matrices whose rows are in non-decreasing order of their row code (one
+/// representative of every class of matrices equal up to the order of the rows).
+#[allow(clippy::too_many_arguments)]
+fn lat_jobs_scaled(jobs: &mut Vec<(usize, Job)>, n: usize, p: usize, aname: &str, ests: &[&str], seed: u64, cap: u64, exp: i64, sorted: bool) {
+    let alpha: Vec<f64> = alphabet(aname, seed).iter().map(|v| v * pow2(exp)).collect();
     let a = alpha.len() as u64;
     let cells = n * p;
+    if sorted {
+        // no prefix splitting: the family is small by construction
+        let per_job = sorted_count(a.pow(p as u32), n) * p as u64;
+        assert!(per_job <= cap, "sorted lattice {}x{} {} has {} executions per job (cap {})", n, p, aname, per_job, cap);
+    }
     // fix the first d cells in the job so that a job has at most `cap` executions
     let mut d = 0usize;
-    while a.pow((cells - d) as u32) * p as u64 > cap && d < cells {
+    while !sorted && a.pow((cells - d) as u32) * p as u64 > cap && d < cells {
         d += 1;
     }
     let prefixes = a.pow(d as u32);
@@ -83,13 +114,23 @@ fn lat_jobs(jobs: &mut Vec<(usize, Job)>, n: usize, p: usize, aname: &str, ests:
                 c /= a;
             }
             let tag: String = fixed.iter().map(|i| i.to_string()).collect();
-            jobs.push((
-                cells * 16 + alpha.len(),
-                Job::new(
-                    format!("lat-{}-n{}p{}-{}{}{}", aname, n, p, est, if d > 0 { "-" } else { "" }, tag),
-                    json!({"kind": "lat", "n": n, "p": p, "est": est, "aname": aname, "alpha": alpha, "fixed": fixed}),
-                ),
-            ));
+            if exp == 0 && !sorted {
+                jobs.push((
+                    cells * 16 + alpha.len(),
+                    Job::new(
+                        format!("lat-{}-n{}p{}-{}{}{}", aname, n, p, est, if d > 0 { "-" } else { "" }, tag),
+                        json!({"kind": "lat", "n": n, "p": p, "est": est, "aname": aname, "alpha": alpha, "fixed": fixed}),
+                    ),
+                ));
+            } else {
+                jobs.push((
+                    cells * 16 + alpha.len() + 8,
+                    Job::new(
+                        format!("slat-{}-n{}p{}{}-x2^{}-{}{}{}", aname, n, p, if sorted { "-sorted" } else { "" }, exp, est, if d > 0 { "-" } else { "" }, tag),
+                        json!({"kind": "lat", "n": n, "p": p, "est": est, "aname": aname, "alpha": alpha, "fixed": fixed, "exp": exp, "sorted": sorted}),
+                    ),
+                ));
+            }
         }
     }
 }
@@ -141,6 +182,48 @@ fn lattice_space(t: bool) -> Vec<(usize, usize, &'static str, &'static [&'static
     v
 }
 
+/// Power-of-two rescaling (round 2): (n, p, alphabet, sorted rows only, estimators) of the lattices
+/// that are enumerated again with every entry multiplied by 2^e, for every e of `scaled_exps`.
+/// Multiplying by a power of two is exact, so the scaled matrix is exactly s·X: projections must be
+/// unchanged and variances scale by s²; every tolerance of the oracle is relative to the trace.
+fn scaled_space(t: bool) -> Vec<(usize, usize, &'static str, bool, &'static [&'static str])> {
+    let mut v: Vec<(usize, usize, &'static str, bool, &'static [&'static str])> = vec![
+        // n > p: SVD path of PCA in covariance mode (correlation mode: EVD of a p x p matrix), tsvd n >= p
+        (3, 1, "S4", false, &ESTS),
+        (4, 1, "S4", false, &ESTS),
+        (3, 2, "S4", false, &ESTS),
+        (4, 2, "S3", false, &ESTS),
+        (4, 3, "B2", false, &ESTS),
+        (5, 3, "B2", false, &ESTS),
+        // the 5 x 4 lattice of thirds of the quick tier, one matrix per row-permutation class
+        (5, 4, "T2", true, &ESTS),
+        // n <= p: covariance / EVD path with a 2x2, 3x3 and 4x4 covariance matrix, tsvd n < p and n = p
+        (2, 2, "S4", false, &ESTS),
+        (2, 3, "S4", false, &ESTS),
+        (3, 3, "S3", false, &ESTS),
+        (2, 4, "S3", false, &ESTS),
+        (3, 4, "B2", false, &ESTS),
+        (4, 4, "B2", false, &ESTS),
+    ];
+    if t {
+        v.push((3, 3, "S4", false, &ESTS));
+        v.push((4, 3, "S3", false, &ESTS));
+        v.push((2, 4, "S4", false, &ESTS));
+        v.push((3, 4, "S3", false, &ESTS));
+        v.push((5, 4, "T2", false, &ESTS));
+        v.push((6, 4, "T2", true, &ESTS));
+    }
+    v
+}
+
+fn scaled_exps(t: bool) -> &'static [i64] {
+    if t {
+        &[-30, 30, -40, 40]
+    } else {
+        &[-30, 30]
+    }
+}
+
 fn structured_sizes(t: bool) -> Vec<(usize, usize)> {
     let mut v = Vec::new();
     let ns: Vec<usize> = if t { (2..=80).collect() } else { vec![2, 3, 5, 8, 9, 17, 40, 80] };
@@ -164,6 +247,12 @@ impl Harness for C14 {
         let space = lattice_space(t);
         for (n, p, a, ests) in &space {
             lat_jobs(&mut jobs, *n, *p, a, ests, seed, cap);
+        }
+        let sspace = scaled_space(t);
+        for e in scaled_exps(t) {
+            for (n, p, a, sorted, ests) in &sspace {
+                lat_jobs_scaled(&mut jobs, *n, *p, a, ests, seed, cap, *e, *sorted);
+            }
         }
         for (n, p) in structured_sizes(t) {
             // interleave the structured jobs early (they are small) but after the tiniest lattices
